@@ -566,6 +566,20 @@ pub fn items(prop: &str, tier: &str) -> Vec<Item> {
             if prop == "C13" {
                 for s in mutating_scenarios(th).into_iter().filter(|s| s.op.name == "remove_all") { v.push(item(s, Plan::Attack { bound: if th { 2 } else { 1 }, full: !th }, if th { 60_000 } else { 3_000 })); }
             }
+            // callers with different uids racing for the first missing component inside a sticky world-writable directory
+            if prop == "C12" {
+                for b in ["E", "K"] {
+                    for (p0, p1) in [("tmp/t/a/b", "tmp/t/a/b"), ("tmp/t/a", "tmp/t/c/d")] {
+                        let m = |p: &str| Op::new("mkdir_all").root(ROOT_IN).path(p).mode(0o777);
+                        let s0 = Scenario { name: format!("{}@1001/{}", b, m(p0).brief()), backend: format!("{}@1001", b), op: m(p0), path: p0.into() };
+                        let s1 = Scenario { name: format!("{}@1002/{}", b, m(p1).brief()), backend: format!("{}@1002", b), op: m(p1), path: p1.into() };
+                        let mut it = item(s0.clone(), Plan::Sched { bound: if th { 2 } else { 1 } }, if th { 80_000 } else { 4_000 });
+                        it.scen.name = format!("{} || {}", s0.name, s1.name);
+                        it.others = vec![s1];
+                        v.push(it);
+                    }
+                }
+            }
             for b in ["E", "K"] {
                 for pr in &pairs {
                     let long = "n".repeat(256);
@@ -609,7 +623,10 @@ pub fn items(prop: &str, tier: &str) -> Vec<Item> {
 pub fn n_items(prop: &str, tier: &str) -> usize { items(prop, tier).len() }
 
 fn spec_for(it: &Item, scen: &Scenario) -> OneShot {
-    let mut os = oneshot(&scen.backend, scen.op.clone(), it.warm);
+    // "K@1001": the caller runs as that uid/gid (no capabilities), umask 0
+    let (bk, uid) = match scen.backend.split_once('@') { Some((b, u)) => (b, u.parse::<u32>().unwrap_or(0)), None => (scen.backend.as_str(), 0) };
+    let mut os = oneshot(bk, scen.op.clone(), it.warm);
+    if uid != 0 { os.setup.uid = uid; os.setup.gid = uid; os.setup.keep_dumpable = true; os.setup.umask = Some(0); }
     os.warmup.extend(handle_warmup(&scen.op));
     if it.no_stdin { os.warmup.push(Op::new("close_stdin")); }
     if it.userns { os.setup.userns = true; }
